@@ -469,6 +469,13 @@ def _anc(node, pm):
     return out
 
 
+def rule_r6(chk, p, t):
+    # calendar / Julian-date agreement rests on the same decompositions: shared instance of C04.R7
+    from rules import C04
+
+    C04.rule_r7(chk, p, t, rid="C05.R6")
+
+
 def run(chk, p, t):
     chk.explanation = (
         "Static decision of structural necessary conditions of C05: (R1) the float seconds of a Julian date are "
@@ -480,7 +487,7 @@ def run(chk, p, t):
         "algorithm over 1901-2099 (float arithmetic)."
     )
     chk.assumptions += ["round/around/rint round to nearest; int/floor/trunc truncate; timedelta normalises (carries) seconds"]
-    for fn in (rule_r1, rule_r2, rule_r3, rule_r4, rule_r5):
+    for fn in (rule_r1, rule_r2, rule_r3, rule_r4, rule_r5, rule_r6):
         rid = "C05.R" + fn.__name__[-1]
         if not chk.wants(rid):
             continue
